@@ -204,7 +204,7 @@ def run_kani_jobs(ctx, harnesses):
     sel_all = harnesses
     by_variant = {}
     for h, spec in harnesses.items():
-        by_variant.setdefault(spec.get("variant", "base"), {})[h] = spec
+        by_variant.setdefault(spec.get("variant_" + ctx.tier) or spec.get("variant", "base"), {})[h] = spec
     results, edits, crates = {}, {}, {}
     jobs = []
     gjobs = []
@@ -260,7 +260,7 @@ def run_kani_jobs(ctx, harnesses):
         cmd = ["cargo", "kani"] + KANI_FLAGS + ["--exact", "--target-dir", td]
         for h, spec in chunk:
             cmd += ["--harness", fq_name(h, spec)]
-        rc, out, wall = run(cmd, cwd=crate, env=kani_env(cfgs), timeout=1800 if ctx.tier == "quick" else 7200)
+        rc, out, wall = run(cmd, cwd=crate, env=kani_env(cfgs), timeout=600 if ctx.tier == "quick" else 3600)
         segs = re.split(r"(?m)^Checking harness ", out)
         outl = []
         for h, spec in chunk:
@@ -317,7 +317,7 @@ def run_kani_jobs(ctx, harnesses):
     for variant, h, spec in jobs:
         r = results[h]
         known = json.load(open(os.path.join(HERE, "known_findings.json")))["findings"]
-        fresh = [f for f in r["failures"] if not known_match(ctx.prop, h, f, None, known) and not (re.match(r"C\d\d\.", f["obligation"]) and not f["obligation"].startswith(ctx.prop + "."))]
+        fresh = [f for f in r["failures"] if not known_match(ctx.prop, h, f, None, known) and not (re.match(r"C\d\d\.", f["obligation"]) and not f["obligation"].startswith(ctx.prop + ".") and ctx.prop not in spec.get("shared", {}).get(f["obligation"], []))]
         n_pb = sum(1 for x in results.values() if x.get("playback") is not None)
         if r["status"] == "violation" and fresh and n_pb < int(os.environ.get("VERIF_MAX_PLAYBACK", "3")) and not os.environ.get("VERIF_NO_PLAYBACK"):
             crate, cfgs = crates[variant]
@@ -483,7 +483,7 @@ def main():
         spec = sel.get(h) or vsel.get(h) or {}
         solver_total += r.get("solver_s") or 0
         for oid, st in sorted(r["obligations"].items()):
-            own = not re.match(r"C\d\d\.", oid) or oid.startswith(prop + ".")
+            own = not re.match(r"C\d\d\.", oid) or oid.startswith(prop + ".") or prop in spec.get("shared", {}).get(oid, [])
             if not own:
                 continue  # obligation of another property hosted by a shared harness
             if st == "FAILURE" and any(known_match(prop, h, f, None, known) for f in r["failures"] if f["obligation"] == oid):
@@ -497,7 +497,7 @@ def main():
             obl_list.append(dict(id=h + "/" + oid, status=st, engine=("verus/z3" if r.get("variant") == "verus" else "kani/cbmc"), bounded=bounded or None, wall_s=r.get("wall_s"), solver_s=round(r.get("solver_s") or 0, 2)))
         for f in r["failures"]:
             oid = f["obligation"]
-            if re.match(r"C\d\d\.", oid) and not oid.startswith(prop + "."):
+            if re.match(r"C\d\d\.", oid) and not oid.startswith(prop + ".") and prop not in (sel.get(h) or vsel.get(h) or {}).get("shared", {}).get(oid, []):
                 log("  note: %s/%s failed but belongs to another property's check" % (h, oid))
                 continue
             k = known_match(prop, h, f, r.get("playback"), known)
